@@ -147,7 +147,15 @@ impl Add for Duration {
             None => {
                 // Overflowed, so we've hit the bound.
                 if self.centuries < 0 {
-                    // We've hit the negative bound, so return MIN.
+                    // We've hit the negative bound, unless the carry of the nanoseconds brings the sum back in range.
+                    if i32::from(self.centuries) + i32::from(rhs.centuries) == i32::from(i16::MIN) - 1 {
+                        // Both are negative, hence neither is MAX and both nanoseconds are below one century.
+                        if let Some(nanoseconds) = (self.nanoseconds + rhs.nanoseconds)
+                            .checked_sub(NANOSECONDS_PER_CENTURY)
+                        {
+                            return Self::from_parts(i16::MIN, nanoseconds);
+                        }
+                    }
                     return Self::MIN;
                 } else {
                     // We've hit the positive bound, so return MAX.
